@@ -83,6 +83,13 @@ def fit(x, w, signed=False):
 
 class Unsupported(Exception): pass
 
+_NORM = re.compile(r'\b[a-z_][a-z0-9_]*::(?=[A-Za-z_{]|<impl (?:str|bool|char|u8|usize|\\?\[))')
+def norm_path(c):
+    """drop module-path segments (`std::option::Option` -> `Option`): the two MIR dumps qualify paths differently"""
+    prev = None
+    while prev != c: prev, c = c, _NORM.sub('', c)
+    return c
+
 # ------------------------------------------------------------------ values
 class Agg:
     __slots__ = ('f',)
@@ -302,7 +309,7 @@ class Engine:
         self.models_used = set()  # environment models invoked (for evidence)
         self.depth = 0
         from . import models
-        self.models = models.MODELS
+        self.models = models.MODELS_NORM
         self.cfg = {}             # sizes for container models etc.
 
     # ---- types
@@ -676,6 +683,7 @@ class Engine:
 
     # ---- call dispatch
     def dispatch(self, callee, argv, g, fr, dest_ty=''):
+        callee = norm_path(callee)
         name = self.lookup_callee(callee)
         if name is not None and not (name in self.mir.derived and name.endswith(('::clone', '::eq', '::default'))):
             return self.call(name, argv, g)     # in-crate code is executed from its own MIR
